@@ -14,6 +14,7 @@ import (
 	"sync"
 	"syscall"
 	"testing"
+	"time"
 
 	"github.com/restic/restic/internal/global"
 	"github.com/restic/restic/internal/repository"
@@ -614,12 +615,19 @@ func c01RunTree(t *testing.T, ti int, nodes []*c01Node, cfg c01Cfg, out *kit.NDJ
 	e.gopts.PackSize = uint(cfg.PackSize)
 	src := filepath.Join(e.base, "src")
 	dst := filepath.Join(e.base, "dst")
+	t0 := time.Now()
+	lap := func(name string) {
+		res.Count("ms_"+name, int(time.Since(t0).Milliseconds()))
+		t0 = time.Now()
+	}
 	c01Materialise(src, nodes)
+	lap("materialise")
 	srcNodes, srcLists, err := c01ProjectTree(src)
 	if err != nil {
 		res.Problem("project source: %v", err)
 		return
 	}
+	lap("project_src")
 	var errs []string
 	if err := e.init(fmt.Sprint(cfg.Version)); err != nil {
 		res.Problem("init: %v", err)
@@ -628,12 +636,14 @@ func c01RunTree(t *testing.T, ti int, nodes []*c01Node, cfg c01Cfg, out *kit.NDJ
 	if err := e.backup("", []string{src}, BackupOptions{ReadConcurrency: uint(cfg.ReadConc)}); err != nil {
 		errs = append(errs, "backup: "+err.Error()+" "+vTail(e.lastErr, 300))
 	}
+	lap("init_backup")
 	err = e.run("restore", nil, func(ctx context.Context, gopts global.Options) error {
 		return runRestore(ctx, RestoreOptions{Target: dst}, gopts, gopts.Term, []string{"latest:" + src})
 	})
 	if err != nil {
 		errs = append(errs, "restore: "+err.Error()+" "+vTail(e.lastErr, 300))
 	}
+	lap("restore")
 	// the source must not have been modified by the backup (otherwise the comparison is meaningless)
 	srcAfter, _, _ := c01ProjectTree(src)
 	for p, a := range srcNodes {
